@@ -19,7 +19,9 @@ claim("C02", "model_checking",
       "trusted: the harness's independent read/write traversal of statements (harness/progs.py); "
       "programs bounded by the alphabet and depth named in the evidence",
       "TLA+ contract spec (Sched.tla) model-checked by TLC over artefacts exported from the real "
-      "builder; inputs are TLC-generated behaviours of ProgGen.tla replayed into the code")
+      "builder; inputs are TLC-generated behaviours of ProgGen.tla and StmtGen.tla replayed into the code; "
+      "as-coded dependency algorithm (Builder.tla) model-checked against the same contract, its edges compared "
+      "exactly with the real builder's")
 
 claim("C04", "model_checking",
       "as-coded model of ExecutionController (all DAGs, guard valuations, request scripts, cut points and "
@@ -223,7 +225,10 @@ claim("C12", "model_checking",
       "under the sanitizer and an unpredicted report is a machinery failure); allocation never fails; programs are "
       "sampled",
       "TLA+ heap model (RefCount.tla) model-checked by TLC over the instruction skeleton extracted from the real "
-      "generator's output; counterexample classes confirmed by replaying input grids on the sanitizer-built binary")
+      "generator's output; counterexample classes confirmed by replaying input grids on the sanitizer-built binary; "
+      "trace validation (TraceRefCount.tla) of marker logs of the compiled module binds extractor and model to the "
+      "binary; the emitted per-type allocation-check / release routines are run on an object model (TypeRoutines.tla) "
+      "for structured user types")
 
 NOT_YET = "check not built yet (work in progress, see DESIGN.md section 11)"
 NOT_APPLICABLE = {}
